@@ -103,6 +103,18 @@ type errVal int
 
 func (e errVal) Error() string { return fmt.Sprintf("E%d", int(e)) }
 
+// Two thirds of the faults wrap a context error (a per-element timeout, a cancelled sub-request) although the
+// stage's own context is alive: a fault is a fault whatever its value is.
+func (e errVal) Unwrap() error {
+	switch int(e) % 3 {
+	case 0:
+		return context.DeadlineExceeded
+	case 1:
+		return context.Canceled
+	}
+	return nil
+}
+
 const tick = 100 * time.Microsecond // one virtual tick: frequencies and intervals are sub-millisecond and not whole milliseconds
 
 // slog handler recording the errors pipe.StdErr logs
@@ -128,6 +140,7 @@ var (
 	curEither   func(int) (int, error)
 	curArrow    func(context.Context, int, chan<- int) error
 	sharedLift  = pipe.Lift(func(x int) (int, error) { return curEither(x) })
+	sharedPure  = pipe.Pure(func(x int) int { v, _ := curEither(x); return v })
 	sharedTry   = pipe.Try(func(x int) (int, error) { return curEither(x) })
 	sharedLiftF = pipe.LiftF(func(ctx context.Context, x int, out chan<- int) error { return curArrow(ctx, x, out) })
 	sharedTryF  = pipe.TryF(func(ctx context.Context, x int, out chan<- int) error { return curArrow(ctx, x, out) })
@@ -135,7 +148,7 @@ var (
 
 // recorder of user-function calls and gates
 type calls struct {
-	decoy  bool // the recorder of the second instance (which never gets an element), or of a free-running run (whose
+	decoy bool // the recorder of the second instance (which never gets an element), or of a free-running run (whose
 	// goroutines may outlive the run: they get lifted values of their own)
 	mu     sync.Mutex
 	start  time.Time
@@ -309,13 +322,22 @@ func build(ctx context.Context, s *Stage, ins []chan int, c *calls) []output {
 	// A lifted function is a value: the SAME pipe.Lift / pipe.Try (LiftF / TryF) value drives every stage of the whole
 	// process (it forwards to the function of the case at hand). Nothing of one stage's run may stick to it.
 	lift := func(f func(int) (int, error)) pipe.F[int, int] {
+		// a function that cannot fail is lifted with pipe.Pure in every other stage (a function of the stage's
+		// parameters, so that a replay lifts it the same way): for the stage it is a Lift that never reports
+		usePure := !s.Try && (s.Fail == nil || s.Fail.Kind == "" || s.Fail.Kind == "none") && s.Kind != "foreach" && (s.A+s.B+s.N+s.Seed+s.Freq)%2 == 0
 		if c.decoy {
+			if usePure {
+				return pipe.Pure(func(x int) int { v, _ := f(x); return v })
+			}
 			if s.Try {
 				return pipe.Try(f)
 			}
 			return pipe.Lift(f)
 		}
 		curEither = f
+		if usePure {
+			return sharedPure
+		}
 		if s.Try {
 			return sharedTry
 		}
